@@ -281,6 +281,9 @@ class WMSServer(Server):
                 continue
             for p in layer.fwd_req_params:
                 if p in params:
+                    # TIME/ELEVATION/DIM_* are already present with lower case keys
+                    if any(k.lower() == p.lower() for k in query.dimensions):
+                        continue
                     query.dimensions[p] = params[p]
 
     def check_featureinfo_request(self, request):
